@@ -816,6 +816,23 @@ func (x *Exec) evalCall(env *Env, e *Expr) Value {
 			return Scalar{x.bytesEq(env, a, b, e), tyBool}
 		case "isNil":
 			return Scalar{x.specEqual(env, x.eval(env, args[0]), nil, e), tyBool}
+		case "haskey":
+			// haskey(m, k): the map m has an entry for key k
+			mv := x.eval(env, args[0])
+			sc, ok := mv.(Scalar)
+			if !ok {
+				x.fail("haskey: map expected in %s", e)
+			}
+			mt, ok := sc.Ty.Underlying().(*types.Map)
+			if !ok {
+				x.fail("haskey: map expected in %s", e)
+			}
+			kv := x.materialize(env, x.eval(env, args[1]))
+			if c, ok := kv.(ConstV); ok {
+				kv = Scalar{st.A.Const(c.V, mt.Key()), mt.Key()}
+			}
+			_, present := x.mapLookup(st, sc.T, mt, x.mapKeyTerm(st, kv, mt.Key()))
+			return Scalar{present, tyBool}
 		case "isBytes":
 			// isBytes(e): the interface value e holds a []byte
 			v := x.asScalar(x.eval(env, args[0]), e)
